@@ -270,7 +270,67 @@ func c12Exec(c c12Case, measure bool) (keys []string, detail, class string) {
 	return nil, detail, "within-limit/equal/rejected"
 }
 
+// ---------- compressed plaintext inside an EncryptedAssertion ----------
+
+type c12EncCase struct {
+	EncLimit int64 `json:"enc_limit"` // configured limit
+	EncSize  int64 `json:"enc_size"`  // inflated size of the decrypted plaintext
+	Level    int   `json:"level"`
+}
+
+func c12EncMsg(size int64, level int, compressed bool) string {
+	r := idp.DefaultResponse(1)
+	r.Assertions[0].Sign = idp.SignSpec{Key: "K3"}
+	doc := idp.BuildResponse(r)
+	as := oracle.Children(doc.Root(), oracle.NSA, "Assertion")[0]
+	pt := idp.StandaloneBytes(as)
+	if int64(len(pt)) < size {
+		pt = append(pt, bytes.Repeat([]byte{' '}, int(size)-len(pt))...)
+	}
+	if compressed {
+		pt = idp.Deflate(pt, c12Levels[level])
+	}
+	ea := idp.EncryptPlaintext(pt, idp.EncSpec{})
+	idx := as.Index()
+	doc.Root().RemoveChildAt(idx)
+	doc.Root().InsertChildAt(idx, ea)
+	return idp.Encode(idp.Bytes(doc, idp.Layout{}), false)
+}
+
+func c12EncExec(c c12EncCase) (keys []string, detail, class string) {
+	eff := c.EncLimit
+	if eff == 0 {
+		eff = c12Default
+	}
+	o := c12Call(0, c.EncLimit, c12EncMsg(c.EncSize, c.Level, true))
+	detail = fmt.Sprintf("EncryptedAssertion whose plaintext is DEFLATE-compressed: %+v effective_limit=%d | accepted=%v err=%q panic=%q", c, eff, o.Accepted, o.Err.Text, o.Panic)
+	lim := fmt.Sprintf("limit=%d", c.EncLimit)
+	if c.EncLimit == 0 {
+		lim = "limit=unset"
+	}
+	if o.Panic != "" {
+		return []string{"C12/decrypted-plaintext/panic"}, detail, "panic"
+	}
+	if c.EncSize > eff {
+		if o.Accepted {
+			return []string{"C12/decrypted-plaintext/oversize-expansion-accepted/" + lim}, detail, "enc/oversize/ACCEPTED"
+		}
+		return nil, detail, "enc/oversize/rejected"
+	}
+	t := c12Call(0, c.EncLimit, c12EncMsg(c.EncSize, c.Level, false))
+	detail += fmt.Sprintf(" | uncompressed plaintext twin: accepted=%v err=%q", t.Accepted, t.Err.Text)
+	if o.Accepted != t.Accepted || o.Data != t.Data {
+		return []string{fmt.Sprintf("C12/decrypted-plaintext/compressed-differs-from-raw/accepted=%v-raw=%v/%s", o.Accepted, t.Accepted, lim)}, detail, "enc/within/DIFFERS"
+	}
+	return nil, detail, "enc/within/equal"
+}
+
 func c12Replay(raw json.RawMessage) ([]string, string) {
+	var ec c12EncCase
+	if json.Unmarshal(raw, &ec) == nil && ec.EncSize > 0 {
+		k, d, _ := c12EncExec(ec)
+		return k, d
+	}
 	var c c12Case
 	if err := json.Unmarshal(raw, &c); err != nil {
 		return nil, err.Error()
@@ -284,7 +344,7 @@ func c12Run(r *mc.Run) {
 	if r.Thorough() {
 		bomb = 2 << 30
 	}
-	r.Rule = "configured limit(6: unset, 1, 64, 2048, 65536, 5 MiB) x inflated size around the effective limit (L-1, L, L+1, 2L, 64L) x flate level(5: stored, 1, 6, 9, Huffman-only) x 6 entry points (the unverified decoders always at 5 MiB), documents = a genuine signed message (or the smallest well-formed document) padded with whitespace to the exact size; plus a streamed expansion bomb (256 MiB quick / 2 GiB thorough, ~1000:1) per limit x entry point x level with TotalAlloc measured around the call (sequential phase). Oracle: size > limit => error; size <= limit => identical outcome, data and error to the same bytes presented uncompressed. non-trivial = the input reached the inflater (raw parse failed); distinct = distinct case"
+	r.Rule = "configured limit(6: unset, 1, 64, 2048, 65536, 5 MiB) x inflated size around the effective limit (L-1, L, L+1, 2L, 64L) x flate level(5: stored, 1, 6, 9, Huffman-only) x 6 entry points (the unverified decoders always at 5 MiB), documents = a genuine signed message (or the smallest well-formed document) padded with whitespace to the exact size; plus a streamed expansion bomb (256 MiB quick / 2 GiB thorough, ~1000:1) per limit x entry point x level with TotalAlloc measured around the call (sequential phase). Oracle: size > limit => error; size <= limit => identical outcome, data and error to the same bytes presented uncompressed; the same for a DEFLATE-compressed plaintext inside an EncryptedAssertion (3 limits x 4 sizes x 2 levels). non-trivial = the input reached the inflater (raw parse failed); distinct = distinct case"
 	r.Assume("runtime.MemStats.TotalAlloc deltas measured in a sequential phase with no other goroutine allocating")
 	var cases []c12Case
 	for _, L := range c12Limits {
@@ -343,6 +403,41 @@ func c12Run(r *mc.Run) {
 		}()
 	}
 	wg.Wait()
+	// compressed plaintext inside an EncryptedAssertion: the same limit governs it
+	var encs []c12EncCase
+	for _, L := range []int64{65536, 0, 8 << 20} {
+		eff := L
+		if eff == 0 {
+			eff = c12Default
+		}
+		for _, sz := range []int64{eff - 1, eff, eff + 1, 2 * eff} {
+			for _, li := range []int{1, 3} {
+				encs = append(encs, c12EncCase{EncLimit: L, EncSize: sz, Level: li})
+			}
+		}
+	}
+	r.Set("encrypted_plaintext_cases", len(encs))
+	semE := make(chan struct{}, 4)
+	var wgE sync.WaitGroup
+	for _, c := range encs {
+		c := c
+		wgE.Add(1)
+		semE <- struct{}{}
+		go func() {
+			defer wgE.Done()
+			keys, detail, class := c12EncExec(c)
+			r.Eval(1)
+			r.Transition(1)
+			r.State(1)
+			r.Bucket(class)
+			r.Nontrivial(fmt.Sprintf("%+v", c))
+			for _, k := range keys {
+				r.Violation(k, detail, c)
+			}
+			<-semE
+		}()
+	}
+	wgE.Wait()
 	// bombs: sequential, with allocation measured
 	n := 0
 	for _, L := range c12Limits {
